@@ -213,17 +213,18 @@ func healExempt(c *Cluster) string {
 	return ""
 }
 
-// staleQuorumStuck recognises the state in which no election can succeed
-// whatever the implementation does: there is no leader, and every running node
-// that is a voter in the configuration it has applied needs, for that
-// configuration, a majority of a voter set of which too few members are
-// running (the others were removed by a change that is committed, and stopped,
-// before these nodes learned that it is committed).
+// staleQuorumStuck recognises known finding F-M: there is no leader, and no
+// running node that is a voter in the configuration it has applied has applied
+// the committed configuration - every node that could stand for election still
+// depends on the voters of an older configuration, of which some were removed
+// by the committed change and stopped, or were demoted by it (they know the
+// commit, have the longer log and refuse their vote, and cannot lead
+// themselves), before the commit index reached the survivors.
 func staleQuorumStuck(c *Cluster) string {
 	if healLeader(c) != 0 {
 		return ""
 	}
-	up := func(id uint64) bool { n := c.nodes[id]; return n != nil && n.up }
+	want := c.chk.confAt(c.chk.gMax())
 	voters := 0
 	desc := ""
 	for _, id := range c.ids {
@@ -236,17 +237,18 @@ func staleQuorumStuck(c *Cluster) string {
 			continue
 		}
 		voters++
-		if jointMaj(st.Voters, st.VotersOutgoing, up) {
-			return "" // this node could be elected by the running nodes
+		have := refConfFromLists(st.Voters, st.VotersOutgoing, st.Learners, st.LearnersNext, st.AutoLeave)
+		if have.Equal(want) {
+			return "" // a node that can stand for election knows the committed configuration
 		}
 		if desc == "" {
-			desc = fmt.Sprintf("node %d still has the configuration voters=%v outgoing=%v applied, of which too few members are running to form its quorum", id, st.Voters, st.VotersOutgoing)
+			desc = fmt.Sprintf("node %d still has %s applied (commit %d), the committed configuration is %s", id, have, st.Committed, want)
 		}
 	}
 	if voters == 0 {
 		return ""
 	}
-	return "no running voter can assemble the quorum of the configuration it has applied: " + desc + " (the members that left were removed by a committed change and stopped before the survivors learned of the commit)"
+	return "no running node that can stand for election has applied the committed configuration: " + desc + " (the members that left or were demoted knew the commit; the survivors depend on their votes and cannot get them)"
 }
 
 func healLeader(c *Cluster) uint64 {
